@@ -198,7 +198,7 @@ let parse_oops (t : toks) : xoop list =
         | "voc" -> push (VCopyConstruct tg)     (* optional::or_else const&: *this ? *this : f() *)
         | "vom" -> push (VMoveConstruct tg)     (* optional::or_else &&:     *this ? move( *this) : f() *)
         | "vsv" | "vsu" | "vsr" -> let j = next_nat t in let x = next_z t in push (VScopedValue (j, x))
-        | "vau" | "vaw" -> let j = next_nat t in let x = next_z t in push (VEmplace (tg, j, x))   (* optional = optional<U>: emplace( *other) / reset() *)
+        | "vau" | "vaw" -> let j = next_nat t in let x = next_z t in push (VAssignFromU (tg, j, x))   (* optional = optional<U>: reset() / **this = *other / emplace( *other) *)
         | "vnd" -> push (VCopyIf (tg, nat_of_int 0))   (* optional::and_then: nothing is copied *)
         | "vne" -> push (VMoveIf (tg, nat_of_int 0))
         | "vnc" | "vnl" -> push (VCopyIf (tg, nat_of_int 1))   (* expected::and_then: U(unexpect, error()) *)
@@ -445,7 +445,7 @@ let run_big op t =
   let fls = String.sub family 3 (String.length family - 3) in
   let trivial = fls = "i" in
   let fl = fls = "cm" in
-  let states = crun_code cap fl kind ops in
+  let states = crun_code cap fl kind trivial ops in
   let obs_s o =
     let ((n, pv), sum) = cobs o in
     Printf.sprintf "%s %s %s" (str_of_z n) (zlist_s pv) (str_of_z sum) in
@@ -453,8 +453,8 @@ let run_big op t =
     if trivial then "/ 0 0 0 0 0 0 w 1 a 0 0 0"
     else
       let c = s.s_w.w_cnt in
-      Printf.sprintf "/ %s %s %s %s %s %s w %s a %d %d 0" (str_of_z c.n_vc) (str_of_z c.n_cc) (str_of_z c.n_mc)
-        (str_of_z c.n_ca) (str_of_z c.n_ma) (str_of_z c.n_dt) (b2s s.s_w.w_ok) (List.length s.s_a.c_mem) (List.length s.s_b.c_mem) in
+      Printf.sprintf "/ %s %s %s %s %s %s w %s a %s %s 0" (str_of_z c.n_vc) (str_of_z c.n_cc) (str_of_z c.n_mc)
+        (str_of_z c.n_ca) (str_of_z c.n_ma) (str_of_z c.n_dt) (b2s s.s_w.w_ok) (str_of_z s.s_a.c_live) (str_of_z s.s_b.c_live) in
   let stopped = List.exists (fun x -> x = None) states in
   let some = List.filter_map (fun x -> x) states in
   let last = match List.rev some with [] -> cst0 | s :: _ -> s in
@@ -469,7 +469,7 @@ let run_big op t =
         let f = cfinal last in
         Printf.sprintf "sizes%s wf %s alive %s" (sizes some) (b2s (okb f)) (if trivial then "0" else str_of_z (alive_of f)) in
     (* the property: the sizes of a count that is never converted to a narrower type, every call legal, nothing left alive *)
-    let ideal = crun_ideal cap fl kind ops in
+    let ideal = crun_ideal cap fl kind trivial ops in
     let sp =
       if List.exists (fun x -> x = None) ideal then "na"
       else
